@@ -2038,7 +2038,9 @@ class binary(base_quantizer.BaseQuantizer):  # pylint: disable=invalid-name
 
   def __str__(self):
     def list_to_str(l):
-      return ",".join([str(x) for x in l])
+      # safe_eval parses number lists separated by spaces; a comma would be
+      # taken as an argument separator.
+      return " ".join([str(x) for x in l])
 
     flags = []
     if self.use_01:
